@@ -15,7 +15,7 @@ TIE = ('The platform is modelled as a state machine in lean/BR/Model/SP.lean (IK
        'Independently of the model, coherence / constraint satisfaction / query purity are evaluated on the real object after every call.')
 TRUSTED = ['Lean 4.33 kernel + Mathlib v4.33 (axioms: propext, Classical.choice, Quot.sound)',
            'harness/c10.py: solver recording by monkeypatching fmr.SPFKinSpaceR and scipy.optimize.fsolve inside the harness process (no repo hook), independent constraint formulas',
-           'the upside-down repair (_fixUpsideDown) and the exception fallback of _FKRaphson are not modelled: histories reaching them are compared up to that call and counted',
+           'the pose _fixUpsideDown arrives at (mirror geometry + fsolve) is an oracle input of the model; what FK does with it, and the exception fallback of _FKRaphson, are modelled',
            'solver outputs are oracle inputs of the state machine (how SPFKinSpaceR finds them is the subject of C09)']
 ASSUMPTIONS = ['geometries of C09; histories of length <= 25', 'coherence to 1e-9, constraints to the library margins (1e-4 on plate tilt)']
 RULE = ('random histories over {IK in/out of workspace (far, tilted, below, short), FK in/out of range with both solvers, reverse FK, move, spinCustom, validate (with and without corrective action), '
@@ -46,18 +46,23 @@ class Recorder:
                 a, it = rec.orig_r(L, attempt, b, t, mx, tf, ta, lmin)
             except Exception:
                 rec.raised = True
+                rec.items.append((3, np.zeros(6), 0.0))
                 raise
             rec.items.append((1, np.array(a, dtype=float).copy(), 1.0 if it == mx else 0.0))
             return a, it
 
         def fsolve(f, x0, *a, **k):
             x = rec.orig_f(f, x0, *a, **k)
-            rec.items.append((2, np.array(x, dtype=float).reshape(-1).copy(), 0.0))
+            xv = np.array(x, dtype=float).reshape(-1)
+            xv = np.concatenate([xv, np.zeros(max(0, 6 - xv.size))])[:6]      # the re-orientation solve of _fixUpsideDown has three unknowns
+            rec.items.append((2, xv.copy(), 0.0))
             return x
 
         def fix(self_):
             rec.upside = True
-            return rec.orig_fix(self_)
+            r = rec.orig_fix(self_)
+            rec.items.append((4, np.asarray(self_.getTopT().gTM(), dtype=float).reshape(-1).copy(), 0.0))
+            return r
         self.raph, self.fsolve, self.fix = raph, fsolve, fix
 
     def __enter__(self):
@@ -79,7 +84,7 @@ class Recorder:
 def enc_oracle(items):
     out = [float(len(items))]
     for kind, x, flag in items:
-        out += [float(kind)] + list(x) + [flag]
+        out += ([float(kind)] + list(x)) if kind == 4 else ([float(kind)] + list(x) + [flag])
     return out
 
 
@@ -241,7 +246,7 @@ def history(rnd, tm, Wrench, rec, nmax):
             enc = enc + enc_oracle(items)
         ops += enc
         o = observe(sp)
-        recs.append({'label': label, 'verdict': verdict, 'obs': o, 'solver_calls': len(items), 'kinds': [(k, f) for k, _, f in items], 'unmodelled': rec.raised or rec.upside})
+        recs.append({'label': label, 'verdict': verdict, 'obs': o, 'solver_calls': len(items), 'kinds': [(k, f) for k, _, f in items], 'unmodelled': False, 'paths': ('raised' if rec.raised else '') + ('upside' if rec.upside else '')})
         ce = coherence(o)
         for k, v in ce.items():
             finds.append(('incoherent:%s' % k, 'published state is not coherent after %s' % label, {'step': step}, v))
@@ -250,8 +255,9 @@ def history(rnd, tm, Wrench, rec, nmax):
                 finds.append(('valid-but:%s' % k, 'verdict valid although the enabled constraint fails after %s' % label, {'step': step, 'settings': list(sp.validation_settings)}, v))
         if pure and (np.abs(o[0] - Tb0).max() > 1e-9 or np.abs(o[1] - Tt0).max() > 1e-9):
             finds.append(('query-moved:%s' % op, 'a pure query changed a plate pose', {'step': step}, float(max(np.abs(o[0] - Tb0).max(), np.abs(o[1] - Tt0).max()))))
-        if ce or rec.raised or rec.upside:
+        if ce:
             break
+        rec.raised = False; rec.upside = False
     req = req + [float(len(recs))] + ops
     return req, recs, finds, g
 
@@ -313,9 +319,8 @@ def run(res, tier, seed, driver_ok):
             if obs is None:
                 res.mismatches.append({'history': n_, 'what': 'model reply has the wrong shape'}); continue
             for i, (r, m) in enumerate(zip(recs, obs)):
-                if r['unmodelled'] or m['repaired']:
+                if r.get('paths'):
                     nunmod += 1
-                    break
                 if not m['ok']:
                     res.mismatches.append({'history': n_, 'step': i, 'op': r['label'], 'what': 'model could not consume the recorded solver outputs (different control flow)',
                                            'labels': [x['label'] for x in recs]}); break
@@ -330,7 +335,7 @@ def run(res, tier, seed, driver_ok):
                                            'oracle_left': m['left'], 'labels': [x['label'] for x in recs]})
                     break
     res.stats.update({'histories': N, 'operations': nops, 'solver_calls_recorded': nsolver, 'model_states_compared': ncmp,
-                      'histories_cut_at_unmodelled_path': nunmod, 'operation_mix': labels})
+                      'operations_through_exception_or_upside_down_repair': nunmod, 'operation_mix': labels})
 
 
 def replay(data):
